@@ -204,11 +204,12 @@ fn macro_expand(
                     grown.saturating_add(uses.saturating_mul(argument.len()))
                 });
                 if raw_line.len().saturating_add(grown) > MAX_EXPANDED_LINE_LENGTH {
+                    // (body lines are stored with numbers that count from 0)
                     bail!(
-                        "a line of macro {} is longer than {} characters after its parameters were replaced, {} (called on {})",
+                        "a line of macro {} is longer than {} characters after its parameters were replaced, line: {} (called on {})",
                         macro_name,
                         MAX_EXPANDED_LINE_LENGTH,
-                        cp,
+                        cp.line_num + 1,
                         line
                     );
                 }
